@@ -1413,9 +1413,13 @@ package gomatrixserverlib
 //@   loop 1: invariant forall s string :: seen(1)[s] ==> (exists i int :: 0 <= i && i < len(toVerify) && string(toVerify[i].ServerName) == s)
 //@   loop 2: invariant 0 <= idx(2) && idx(2) <= len(results) && (forall i int :: 0 <= i && i < idx(2) ==> results[i].Error == nil)
 
+// canonicalOf(d) names "the canonical form CanonicalJSON produces for d" (C02, C05 use it); what CanonicalJSON
+// does is proved here: invalid JSON is an error, valid JSON is compacted and key-sorted by CanonicalJSONAssumeValid
 //@ func CanonicalJSON
-//@   trusted
-//@   ensures canonical-form: result[1] == nil ==> str(result[0]) == canonicalOf(str(input))
+//@   property C01
+//@   defines canonical-form: result[1] == nil ==> str(result[0]) == canonicalOf(str(input))
+//@   ensures invalid-json-is-rejected: !jsonValid(str(input)) ==> (result[1] != nil && isType(result[1], "BadJSONError"))
+//@   ensures valid-json-is-canonicalised: jsonValid(str(input)) ==> (result[1] == nil && str(result[0]) == canonAV(str(input)))
 //@   assigns nothing
 
 //@ func SignJSON
@@ -1482,8 +1486,12 @@ package gomatrixserverlib
 
 // EnforcedCanonicalJSON is C01's subject; C05 only needs that it is a function of its input.
 //@ func EnforcedCanonicalJSON
-//@   trusted
-//@   ensures canonical-form: err == nil ==> string(result[0]) == canonicalOf(string(input))
+//@   property C01
+//@   ensures canonical-form: result[1] == nil ==> string(result[0]) == canonicalOf(string(input))
+//@   ensures unknown-version-is-an-error: !verKnown(string(roomVersion)) ==> result[1] != nil
+//@   ensures version-check-first: result[1] == nil ==> (called(CheckCanonicalJSON) && ret(CheckCanonicalJSON) == nil)
+//@   ensures failed-check-is-bad-json: (called(CheckCanonicalJSON) && ret(CheckCanonicalJSON) != nil) ==> (result[1] != nil && isType(result[1], "BadJSONError"))
+//@   calls CheckCanonicalJSON@root the-versions-rule-on-the-input: arg0 == root_input && ref(recv) == verImplRef(string(root_roomVersion))
 //@   assigns nothing
 
 //@ func (*eventV1).Redact
@@ -1927,3 +1935,56 @@ package gomatrixserverlib
 //@   requires roomQuerier != nil
 //@   ensures authorising-user-may-invite: (result[1] == nil && result[0] != "" && !privilegedCreators) ==> (called(PowerLevels) && ret(PowerLevels, 1) == nil && UL(*ret(PowerLevels, 0), result[0]) >= ret(PowerLevels, 0).Invite)
 //@   ensures authorising-user-only-when-restricted: (result[1] == nil && result[0] != "") ==> (called(InvitePending) && !ret(InvitePending, 0) && ret(InvitePending, 1) == nil)
+
+// ---------------------------------------------------------------- C01: canonical JSON (mechanisms)
+
+// the leaf visitor of the enforced check: a container is descended into with the same visitor and never
+// stops the walk; a scalar stops the walk exactly when it is not an integer literal in range; the verdict
+// flag only ever goes from true to false
+//@ func verifyEnforcedCanonicalJSON$1
+//@   property C01
+//@   selfcallback
+//@   stable sticky: !valid
+//@   ensures containers-never-stop-the-walk: (value.IsArray() || value.IsObject()) ==> result
+//@   ensures containers-are-descended: (value.IsArray() || value.IsObject()) ==> called(ForEach)
+//@   ensures leaf-verdict: !(value.IsArray() || value.IsObject()) ==> ((result <==> leafOK(value)) && (post_valid <==> (valid && leafOK(value))))
+//@   calls ForEach@root same-visitor-on-the-container: t == root_value
+
+// the walk itself is ForEach of gjson (assumed to call the visitor on members in order until it returns false);
+// the verdict is the flag, which the visitor can only lower
+//@ func verifyEnforcedCanonicalJSON
+//@   property C01
+//@   ensures walks-the-document: called(ForEach)
+//@   calls ForEach@root whole-document: t == ret(ParseBytes)
+//@   calls ParseBytes@root of-the-input: json == root_input
+
+// ---- key sorting: every element / member is visited, none stops the walk, members are ordered by strings.Compare
+//@ func sortJSONValue
+//@   trusted
+
+//@ func sortJSONArray$1
+//@   property C01
+//@   ensures never-stops: result
+//@   ensures every-element-is-canonicalised: called(sortJSONValue)
+//@   calls sortJSONValue@root the-element-itself: input == root_value
+
+//@ func sortJSONObject$1
+//@   property C01
+//@   ensures never-stops: result
+//@   ensures member-recorded: len(post_entries) == len(entries) + 1 && post_entries[len(entries)].key == key.String() && post_entries[len(entries)].value == value
+//@   ensures earlier-members-kept: forall i int :: 0 <= i && i < len(entries) ==> post_entries[i] == entries[i]
+
+//@ func sortJSONObject$2
+//@   property C01
+//@   ensures code-point-order-of-the-parsed-keys: result == extcall("strings.Compare", a.key, b.key)
+
+//@ func sortJSONArray
+//@   property C01
+//@   ensures closes-the-array: len(result) >= 1 && result[len(result) - 1] == 93
+//@   calls ForEach@root every-element-of-the-array: t == root_input
+
+//@ func sortJSONObject
+//@   property C01
+//@   nosafety
+//@   ensures closes-the-object: len(result) >= 1 && result[len(result) - 1] == 125
+//@   calls ForEach@root every-member-of-the-object: t == root_input
